@@ -205,4 +205,22 @@ def fireTimes (dur sc r : Int) (it : TimeItem) : List Int :=
       if t ≤ dur then [t] else []
     else []
 
+/-! ### instants at which RULES are evaluated, and at which a time premise fires -/
+
+/-- EPANET 2.2 (`ruletimestep`): within each hydraulic step rules are evaluated at the multiples of the rule step `R` and once more
+at the END of the hydraulic step (multiples of `H` on a run without intermediate events); never at time 0 -/
+def epanetRuleInstant (R H t : Int) : Prop := 0 < t ∧ (t % R = 0 ∨ t % H = 0)
+
+/-- WNTRSimulator (C04 `rules_on_positive_grid`): the positive multiples of the rule step only -/
+def wntrRuleInstant (R t : Int) : Prop := 0 < t ∧ t % R = 0
+
+/-- a time premise with threshold `c` fires at `t`: `t` is the FIRST evaluation instant at or after `c`; an `=` premise
+(`eq = true`) is a window test `(previous instant, t]`, whose first window starts at `lo0` (exclusive): EPANET `lo0 = 0`
+(a premise due at time 0 is never seen), WNTRSimulator `lo0 = -1` (C04 `ruleWindowLo`: the first window contains 0) -/
+def FiresAt (inst : Int → Prop) (eq : Bool) (lo0 c t : Int) : Prop :=
+  inst t ∧ c ≤ t ∧ (∀ u, inst u → c ≤ u → t ≤ u) ∧ (eq = true → lo0 < c)
+
+def epanetFires (R H : Int) (eq : Bool) (c t : Int) : Prop := FiresAt (epanetRuleInstant R H) eq 0 c t
+def wntrFires (R : Int) (eq : Bool) (c t : Int) : Prop := FiresAt (wntrRuleInstant R) eq (-1) c t
+
 end Wntr.Engines
